@@ -34,6 +34,8 @@ func runC10(w *World) {
 	w.weights[akFault] = 0
 	w.weights[akTick] = 1
 	w.maxTick = 50 * time.Millisecond
+	hangingNow := map[string]bool{}
+	w.noTickWhile = func() bool { return w.httpInFlight(func(addr string) bool { return hangingNow[addr] }) }
 	w.cut = cutMode(w.knob("cut", 2))
 	n := w.addNode("n1", "10.0.0.1", 9851)
 
@@ -90,6 +92,8 @@ func runC10(w *World) {
 				st = h.script[h.pos]
 				h.pos++
 			}
+			// while an endpoint is (scripted to be) silent, time must be allowed to pass
+			hangingNow[fmt.Sprintf("hook%d.sim:80", i)] = st == -2
 			if st != 200 {
 				w.stat(fmt.Sprintf("fault.webhook_%s", map[int]string{500: "500", 503: "503", -1: "close", -2: "hang"}[st]), 1)
 				h.lastFailure = w.now()
@@ -407,6 +411,7 @@ func runC10(w *World) {
 	}
 	// ---- pub/sub: build the event list
 	var events []pubEvent
+	optCount := map[string]int{}
 	srcSeq := map[string]int{}
 	add := func(ch, payload string, inv, ret int, src string) {
 		srcSeq[src]++
@@ -426,6 +431,8 @@ func runC10(w *World) {
 		}
 		for k, m := range ms {
 			if m.optional {
+				// may or may not be delivered: only relevant for the duplicate count
+				optCount[f.name+"|"+fmt.Sprintf("%s @%d", m.String(), int64(hc.lm.entries[idx[k]].t))]++
 				continue
 			}
 			e := &hc.lm.entries[idx[k]]
@@ -488,7 +495,7 @@ func runC10(w *World) {
 						si, clipStr(ev.payload, 80), ev.channel, ev.ret, wn.kind, wn.name, wn.sendStep)
 					return
 				}
-				mult := 0
+				mult := optCount[ev.channel+"|"+ev.payload]
 				for _, e2 := range events {
 					if e2.channel == ev.channel && e2.payload == ev.payload {
 						mult++
@@ -501,18 +508,43 @@ func runC10(w *World) {
 				totalChecked++
 			}
 		}
-		// per publisher FIFO inside each subscription
+		// per publisher FIFO inside each subscription: every received message must map to an
+		// event of its source that lies after the previously mapped one
 		last := map[string]int{}
 		for _, g := range got {
+			if optCount[g.ch+"|"+g.payload] > 0 {
+				continue // an identical optional message exists: this one cannot be placed uniquely
+			}
+			matched, behind := false, false
+			var src string
 			for _, ev := range events {
-				if ev.channel == g.ch && ev.payload == g.payload {
-					k := g.kind + "|" + g.sub + "|" + ev.src
-					if ev.seq < last[k] {
-						w.violate("C10/order", "subscriber %d received messages of %s out of order on %s %s (%q after a later one)", si, ev.src, g.kind, g.sub, clipStr(ev.payload, 60))
-						return
-					}
-					last[k] = ev.seq
+				if ev.channel != g.ch || ev.payload != g.payload {
+					continue
 				}
+				k := g.kind + "|" + g.sub + "|" + ev.src
+				src = ev.src
+				if ev.seq > last[k] {
+					last[k] = ev.seq
+					matched = true
+					break
+				}
+				behind = true
+			}
+			if !matched && behind && optCount[g.ch+"|"+g.payload] == 0 {
+				var recent []string
+				for _, x := range got {
+					if x.kind == g.kind && x.sub == g.sub {
+						recent = append(recent, clipStr(x.payload, 50))
+					}
+				}
+				var evs []string
+				for _, ev := range events {
+					if ev.src == src {
+						evs = append(evs, fmt.Sprintf("%d:%s", ev.seq, clipStr(ev.payload, 50)))
+					}
+				}
+				w.violate("C10/order", "subscriber %d received messages of %s out of order on %s %s (%q after a later one); received on this subscription: %v; events of the source in write order: %v", si, src, g.kind, g.sub, clipStr(g.payload, 60), recent, evs)
+				return
 			}
 		}
 	}
